@@ -301,6 +301,16 @@ def run_case(ctx, st, pt, p, heavy=True):
                     if rp.observed_fields(sl.slice(u, v)) != rp.observed_fields(a.slice(i + u, i + v)):
                         ctx.violation('slice-of-slice-differs', {'text': text, 'outer': [i, j], 'inner': [u, v]})
         a.slice(None, None)
+        # the same operations on an annotation whose modification dictionary is not in residue order (as left behind
+        # by reverse / shuffle): the contracts on slice/split judge these executions with the same model
+        rr = a.reverse()
+        for (i, j) in (pairs if len(pairs) <= 12 else rng.sample(pairs, 12)):
+            rr.slice(i, j)
+        list(rr.split())
+        if not p.intervals:
+            sh = a.shuffle(seed=11)
+            list(sh.split())
+            sh.slice(0, max(1, n // 2))
         pt.span_to_sequence(text, (0, n, 0))
         list(a.split())
         pt.split(text)
